@@ -356,6 +356,9 @@ func runWorker(spec string, thorough bool, deadline time.Time) {
 	}
 }
 
+// state-cache statistics of the explorer, summed over scenarios
+var cutExecs, hbStates int64
+
 func main() {
 	explore.BeforeExec = []func(){cdi.VerifResetGlobals}
 	for i, a := range os.Args {
@@ -443,6 +446,8 @@ func main() {
 			r.Cap("execution/time cap hit in " + o.Config.String())
 		}
 		r.AddEvals(o.Executions, o.Executions)
+		cutExecs, hbStates = cutExecs+o.Pruned, hbStates+o.States
+		r.Extra["executions_cut_at_an_explored_state"], r.Extra["happens_before_states_stored"] = cutExecs, hbStates
 		r.States.Add(o.Points)
 		r.Transitions.Add(o.Points)
 		for k, n := range o.Outcomes {
